@@ -188,10 +188,14 @@ impl Runtime {
                 let mut context = Context::from_waker(&waker);
                 let mut future = std::pin::pin!(future);
                 loop {
+                    #[cfg(compio_verif)]
+                    compio_log::verif::point("rt.poll_main", 0, 0);
                     if let Poll::Ready(result) = future.as_mut().poll(&mut context) {
                         self.run();
                         return result;
                     }
+                    #[cfg(compio_verif)]
+                    compio_log::verif::point("rt.tick", 0, 0);
                     let remaining_tasks = self.run();
                     if remaining_tasks {
                         self.poll_with(Some(Duration::ZERO));
